@@ -138,8 +138,8 @@ theorem tparm_refines_spec_noformat (s : Bytes) (a : Prog) (h : parse s = some a
 example : ∃ a, parse nestedProg = some a ∧ a.all notFmt = true := by decide
 
 /-- The pinned machine (no nesting counter, no `%A`/`%O`, no `#`/space flag without a colon) refines the reference
-on exactly the class the database uses: no conditional nested inside another conditional (`depth ≤ 1`; else-if chains
-are fine) and only tokens the pinned code implements.  Outside this class it does not (`nested_cond_counterexample`,
+on the class the database uses: no conditional nested inside another conditional (`depth ≤ 1`; else-if chains
+are fine) and only tokens the pinned code implements.  Outside this class it need not (`nested_cond_counterexample`,
 `logical_and_counterexample`, `format_flag_counterexample`). -/
 theorem tparm_pinned_refines_spec (s : Bytes) (a : Prog) (h : parse s = some a) (hd : a.depth ≤ 1)
     (hp : a.all Tok.pinnedOk = true) (params : List Value) (sv : Vars) (hs : specified a params sv = true) :
